@@ -419,14 +419,24 @@ def Rule.isPure : Rule → Bool
   | .fillNone _ _ _ => false
   | _ => true
 
+/-- "make it odd" of both running-window classes -/
+def normOdd (n : Int) : Int := if n % 2 = 0 then n + 1 else n
+
+/-- constructing a `RunningWindowOverDaysOfYear` / `RunningWindowOverYears` from `(length, step)`: both must be positive
+    integers (their own attrs validators) and, after the "make it odd" normalisation, `step ≤ length` (their `__attrs_post_init__`) -/
+def buildCheck : List Val → Except String Unit
+  | [.i l, .i s] => if l ≤ 0 ∨ s ≤ 0 then .error "ValueError" else if normOdd s > normOdd l then .error "ValueError" else .ok ()
+  | _ => .error "TypeError"
+
 /-- the validation part of a rule (on the fields alone); type confusion is a `TypeError` as in Python -/
 def checkRule (r : Rule) (f : List (String × Val)) : Except String Unit :=
   match r with
   | .raiseIfGt a b => match get f a, get f b with
       | .i x, .i y => if x > y then .error "ValueError" else .ok ()
       | _, _ => .error "TypeError"
-  | .build _ flag _ _ => match get f flag with
-      | .b _ => .ok ()
+  | .build _ flag sources _ => match get f flag with
+      | .b true => buildCheck (sources.map (get f))
+      | .b false => .ok ()
       | _ => .error "TypeError"
   | .fillNone target a b => match get f target with
       | .none => (match get f a, get f b with
